@@ -41,7 +41,7 @@ Definition cands (e : ecfg) (s : plstate) (a : actor) : list label :=
   | ACommit i => match get_thr s i with Some t => cands_commit e s i t | None => [] end
   | AReader i => [LTxnLoaded (visible s)]
                  ++ match nth_error (rdrs s) i with Some (RLoaded h) => [LTxnRegistered h] | _ => [] end
-  | AFlush => [LMemWait; LMemWoken; LMemRunning; LMemFlushed; LMemNoPending; LMemNotifiedLevel; LMemIdle; LMemExit;
+  | AFlush => [LMemWait; LMemWoken; LMemRunning; LMemFlushed; LMemNoPending; LMemNotifiedLevel; LMemIdle; LMemRecheck; LMemExit;
                LSignal false; LSignal true] ++ (if e_bgfail e then [LMemError] else [])
   | ALevel => [LLevelWait; LLevelWoken; LLevelRunning; LLevelIdle; LLevelExit; LSignal false; LSignal true]
               ++ map LLevelDone (e_l0s e) ++ (if e_bgfail e then [LLevelError] else [])
